@@ -105,7 +105,11 @@ struct String {
 
     String &operator+=(String &&src) {
         Write(src.First(), src.Length());
-        src.Reset();
+
+        if (this != &src) {
+            // Appending a string to itself: there is nothing to take over, and the result is not to be released.
+            src.Reset();
+        }
 
         return *this;
     }
